@@ -380,7 +380,7 @@ def run(ctx):
     except vf.BuildFailure as e:
         ctx.violation('tie-break:cx_bool', 'boolean harness no longer builds: %s' % str(e)[-600:], replay=dict(error=str(e)[-2000:]), nofail=True)
         return
-    n = 420 if ctx.quick else 1600
+    n = 420 if ctx.quick else 900
     G = 20 if ctx.quick else 40
     broken = not pr['ok']
     if broken:
@@ -390,7 +390,7 @@ def run(ctx):
     tie_ok = True
     try:
         sweep_exe = vf.build_cpp(ctx, 'cx_sweep.cpp', 'plain')
-        tie_ok = kernel_tie(ctx, sweep_exe, 20000 if ctx.quick else 200000, 160000 if ctx.quick else 3000000)
+        tie_ok = kernel_tie(ctx, sweep_exe, 20000 if ctx.quick else 200000, 160000 if ctx.quick else 1500000)
     except vf.BuildFailure as e:
         sweep_exe = None
         tie_ok = False
